@@ -49,6 +49,7 @@ func main() {
 				fmt.Fprintln(os.Stderr, err)
 				os.Exit(3)
 			}
+			e1.TwoSteps = p.C01 && !p.C15
 			(&e1.Checker{Rep: rep, Props: p}).Check(st)
 		} else {
 			e1.Run(rep, p, *tier, sh, deadline)
